@@ -10,12 +10,11 @@
 
    and every event must be an enabled step of PipelineFaults with the code's policy:
      - after the writer has left nothing more is written (no PWrite / PAddr / PWriterExit);
-     - a worker leaves by a panic only after the writer has, with its output ready (PDone seen) and
+     - a worker leaves by a panic only while the writer has not ended well, with its output ready (PDone seen) and
        WITHOUT a PDec: the counter keeps counting its cluster - the next PDispatch reports, under the
        counter's mutex, exactly counter + 1, which is how the trace sees that nothing was decremented;
-     - the main thread fails only once the writer has left;
-     - "fail" only after the writer has left, or after the whole pipeline has ended (the failing write then
-       belongs to a later phase of the pack: header, tables, check info);
+     - a panic of a worker or of the main thread marks the writer as gone (that is what a failed send means; the
+       writer itself leaves with a Panic event when it unwraps the error, silently when it returns it);
      - "ok" only from the state the fault-free machine ends in; "hang" only in the state Stuck of
        PipelineFaults (main waiting for room, counter at its bound, every worker dead): a hang anywhere
        else is not explained by the model.
@@ -40,21 +39,24 @@ TracePanicWriter ==
 TracePanicWorker ==
   /\ IsEvent("Panic") /\ IsWorker(Rec[l].thread)
   /\ LET t == Rec[l].thread IN
-       /\ (wfail /\ t \notin dead /\ t \notin exited /\ BusyOf(t) # Unset /\ BusyOf(t) \in DOMAIN rel) = TRUE
+       /\ (~writerDone /\ t \notin dead /\ t \notin exited /\ BusyOf(t) # Unset /\ BusyOf(t) \in DOMAIN rel) = TRUE
        /\ dead' = dead \cup {t}
        /\ busy' = Put(busy, t, Unset)
-  /\ UNCHANGED <<wfail, mainSt>>                        \* inQueue unchanged: the code's policy (DecOnFail = FALSE)
+  /\ wfail' = TRUE                 \* a failed send is how the others learn that the writer has left (it leaves without a
+                                   \* Panic event when its write returns the error instead of unwrapping it: raw clusters)
+  /\ UNCHANGED mainSt              \* inQueue unchanged: the code's policy (DecOnFail = FALSE)
   /\ UNCHANGED <<W, maxQ, seen, dispatched, fusion, inQueue, rel, written, filePos, addrLen, closed, exited, writerDone, drift>>
 TracePanicMain ==
   /\ IsEvent("Panic") /\ Rec[l].thread = "main"
-  /\ (wfail /\ mainSt = "run") = TRUE
-  /\ mainSt' = "fail" /\ UNCHANGED <<wfail, dead>>
+  /\ (~writerDone /\ mainSt = "run") = TRUE
+  /\ mainSt' = "fail" /\ wfail' = TRUE /\ UNCHANGED dead
   /\ UNCHANGED <<W, maxQ, seen, dispatched, fusion, inQueue, busy, rel, written, filePos, addrLen, closed, exited, writerDone, drift>>
 TraceOutcome ==
   /\ IsEvent("Outcome")
   /\ LET s == Rec[l].status IN
        (\/ s = "ok" /\ writerDone /\ ~wfail /\ dead = {}
-        \/ s = "fail" /\ (wfail \/ writerDone)      \* (writerDone: the pipeline ended well, a later write of the pack failed)
+        \/ s = "fail"      \* the writer left (seen, or silently: its error is what finalize returns), or the pipeline
+                           \* ended well and a later write of the pack failed
         \/ s = "hang" /\ wfail /\ mainSt = "run" /\ ~closed /\ inQueue >= maxQ /\ Cardinality(dead) = W) = TRUE    \* PipelineFaults!Stuck
   /\ UNCHANGED ftvars_but_l
 
